@@ -3,7 +3,8 @@
      <c99 double> \t <c99 float> \t <c89 double> \t <c89 float> \t <c99 half> \t <flags>
    printer results as  S:<hex text>  |  EXN:<class>  |  OUTSIDE (not in the modelled fragment)  |
    FUEL; flags (for the c99 double and the c99 float tree) "W<wp>R<reads back>D<no int div>" with
-   1/0 and R in {1,0,x (reader rejects)} or "-" when there is no tree. *)
+   1/0 and R in {1,0,x (reader rejects)}, followed by "G<cguard>N<nguard>" (the hypotheses of the
+   guarded theorems), or "-" when there is no tree. *)
 open Semodel
 open Expr_io
 
@@ -28,7 +29,9 @@ let flags std prec e : string =
       let w = if wp t then "1" else "0" in
       let r = match ccode_reads_back t with Some true -> "1" | Some false -> "0" | None -> "x" in
       let d = if no_int_div t then "1" else "0" in
-      "W" ^ w ^ "R" ^ r ^ "D" ^ d
+      let g = if cguard e then "1" else "0" in
+      let ng = if nguard { c99 = true; fl = (small_of_n prec = 1) } e then "1" else "0" in
+      "W" ^ w ^ "R" ^ r ^ "D" ^ d ^ "G" ^ g ^ "N" ^ ng
   | _ -> "-"
 
 let one (s : string) : string =
